@@ -31,7 +31,7 @@ const CAP: usize = 40;
 
 /// programs whose traits have several answers: ground facts for distinct types, generic impls that
 /// generate infinitely many answers, blanket and self-recursive blanket impls, deep where-clauses
-fn gen_enum_program(t: &mut Tape) -> Program {
+pub fn gen_enum_program(t: &mut Tape) -> Program {
     let mut p = Program::default();
     for name in ["A", "B", "C"] {
         p.ctors.push(new_ctor(name, 0));
@@ -104,7 +104,7 @@ fn gen_enum_program(t: &mut Tape) -> Program {
     p
 }
 
-fn gen_enum_goal(t: &mut Tape, p: &Program) -> Goal {
+pub fn gen_enum_goal(t: &mut Tape, p: &Program) -> Goal {
     let nv = 1 + t.choose(2);
     let vars: Vec<usize> = (0..nv).collect();
     let x = |t: &mut Tape| Ty::QVar(t.choose(nv));
